@@ -205,6 +205,7 @@ def _combo_job(job):
     for name, b in snaps_for(plat)[:3]:
         if len(b) == 1024:
             bases.append(b)
+    failed, built = {}, set()
     reused = None  # one long-lived blocking facade, re-scanned on every block (a client that re-connects / re-scans)
     for bi, base in enumerate(bases):
         for desc, w in (ws if bi == 0 else [("snapshot-wiring", None)] + ws[:40]):
@@ -224,13 +225,23 @@ def _combo_job(job):
                 n += 1
                 try:
                     fac = build(spa)
-                except Exception as e:  # noqa  (C11's business; not judged here)
-                    return job, n, bad, "unconstructible"
+                except Exception as e:  # noqa
+                    # a combination that can never be built is C11's business; one that builds for some wirings and
+                    # not for others does not expose the inventory of those wirings
+                    failed.setdefault(which, (desc, repr(e)))
+                    continue
+                built.add(which)
                 why = judge(spa, fac, labs, which)
                 if why and not any(b[0][0] == why[0] and b[2] == which for b in bad):
                     bad.append((why, desc, which))
                 if which == "sync" and reused is None:
                     reused = fac
+    for which, (desc, e) in failed.items():
+        if which in built:
+            bad.append((("construct", f"{which}: the facade cannot be constructed for wiring {desc} ({e}) although it can for other wirings"),
+                        desc, which))
+    if failed and not built:
+        return job, n, bad, "unconstructible"
     return job, n, bad, None
 
 
@@ -298,6 +309,8 @@ def run(ctx):
         ctx.sample({"combination_case": {"combination": list(c), "wirings": len(ws_), "examples": [w[0] for w in ws_[1:400:57]]}})
     ctx.set("combinations", len(combos))
     ctx.set("combination_notes", notes)
+    if notes.get("checked", 0) < len(combos) // 2 and not ctx.violations:
+        raise core.HarnessError(f"C12: only {notes.get('checked', 0)} of {len(combos)} combinations could be judged - vacuous")
     ctx.log(f"{len(combos)} combinations: {evals} facade constructions judged; {notes}")
     # blocking facade under 16 hash seeds
     orders = {}
